@@ -46,19 +46,20 @@ Definition amount_text_session (dcd : bool) (cp : comm -> Z) (st : style) (a : a
 Definition value_column_text_session (dcd : bool) (cp : comm -> Z) (st : style) (a : amount) : str :=
   value_column_text cp (session_style dcd st) a.
 
-(* "Remove commas and periods" (amount_t::parse, after the scan):  while ( *p) { if ( *p == ',' || *p == '.') p++; *t++ = *p++; }
-   A mark is skipped and the NEXT character is copied whatever it is, so of two adjacent marks the second survives; the
-   text then goes to mpq_set_str, which refuses anything but an optional '-' and digits and leaves the (fresh, zero)
-   quantity untouched: `1.,2 EUR` is accepted as 0 EUR with one decimal.  (parse_quantity gives trailing marks back, so
-   the text never ends in one.) *)
+(* "Remove commas and periods" (amount_t::parse, after the scan):
+     while ( *p) { if ( *p == ',' || *p == '.') { p++; continue; } *t++ = *p++; }
+   Every mark is skipped, whatever follows it; the text then goes to mpq_set_str, which refuses anything but an optional
+   '-' and digits, and a refusal is an amount_error ("Invalid quantity in amount").  Before the repair a mark was skipped
+   and the NEXT character copied whatever it was, so of two adjacent marks the second survived, mpq_set_str refused the
+   text and its status was ignored: `1.,2 EUR` was accepted as 0 EUR with one decimal.  Now the scan decides alone: it
+   takes `1.,2` as 1,2 (a decimal comma after an empty thousands group) and `1,.2` as 1.2.  (parse_quantity gives
+   trailing marks back, so the text never ends in one.) *)
 Definition is_mark (c : Z) : bool := (c =? 46) || (c =? 44).
 
 Fixpoint strip_marks (s : str) : str :=
   match s with
   | [] => []
-  | c :: t =>
-      if is_mark c then match t with [] => [] | d :: t' => d :: strip_marks t' end
-      else c :: strip_marks t
+  | c :: t => if is_mark c then strip_marks t else c :: strip_marks t
   end.
 
 Definition drop_minus (quant : str) : str := match quant with 45 :: t => t | _ => quant end.
@@ -69,8 +70,7 @@ Definition set_str_accepts (quant : str) : bool := forallb is_digit (strip_marks
 Definition parse_amount_text_session (dcd flag : bool) (s : str) : res parsed_amount :=
   do ap <- split_amount s;
   do pa <- parse_amount_text (reader_dc dcd flag) s;
-  Ok (if set_str_accepts (ap_quant ap) then pa
-      else mkPA 0 (pa_prec pa) (pa_sym pa) (pa_style pa) (pa_rest pa)).
+  if set_str_accepts (ap_quant ap) then Ok pa else Err EBadAmount.
 
 (* the quantity text written with the bytes of the two printer sites (instead of quantity_text's own 44/46):
    Proofs/DecimalCommaProofs.v shows it is quantity_text at session_style *)
